@@ -31,7 +31,7 @@ func init() {
 		Shards:   shards(8, 16),
 		Timeout:  timeouts(5*time.Minute, 30*time.Minute),
 		MinEvals: 500,
-		Required: []string{"midstream_setmsize", "class:valid", "class:exact", "class:oversize", "class:truncated", "class:prefix<4", "class:prefix4-6", "class:badtype", "class:tailcut", "class:hostile", "after_abnormal_delivered", "residue_probes"},
+		Required: []string{"midstream_setmsize", "class:valid", "class:exact", "class:oversize", "class:truncated", "class:prefix<4", "class:prefix4-6", "class:badtype", "class:tailcut", "class:tailcut-oversize", "class:hostile", "after_abnormal_delivered", "residue_probes"},
 		Run:      runC03,
 	})
 }
@@ -245,6 +245,17 @@ func genFrameC03(w *mon.W, g *gen.G, M int, last bool) c03frame {
 		}
 		// stream ends inside this frame
 		_, fr := fitting(g, 8, M)
+		if r.Intn(2) == 0 {
+			// ... which is an oversize one: the end falls in the part within msize or in the excess that is being discarded
+			ks := []int{1, 4, 5, 6, 11, 64, M, 2 * M}
+			k := ks[r.Intn(len(ks))]
+			_, fr = sized(g, M+k)
+			cut := 1 + r.Intn(len(fr)-1)
+			if k > 1 && r.Intn(3) != 0 {
+				cut = M + r.Intn(k) // 0..k-1 bytes of the excess arrive
+			}
+			return c03frame{class: "tailcut-oversize", bytes: append([]byte{}, fr[:cut]...), expect: "err", cut: true, fatal: true}
+		}
 		cut := 1 + r.Intn(len(fr)-1)
 		return c03frame{class: "tailcut", bytes: append([]byte{}, fr[:cut]...), expect: "err", cut: true, fatal: true}
 	}
